@@ -93,6 +93,9 @@ func (tr *Translator) encFn(t types.Type) string {
 	tr.jsonDecls()
 	n := "enc_" + typeKey(t)
 	u.decl(n, fmt.Sprintf("(declare-fun %s (%s) JV)", n, u.sortOf(t)))
+	if it, isIface := t.Underlying().(*types.Interface); isIface && it.NumMethods() == 0 && !u.declSet["dec_iface_str"] {
+		tr.decFn(t)
+	}
 	return n
 }
 
@@ -103,6 +106,21 @@ func (tr *Translator) decFn(t types.Type) (dec, ok string) {
 	ok = "decOK_" + typeKey(t)
 	u.decl(dec, fmt.Sprintf("(declare-fun %s (JV) %s)", dec, u.sortOf(t)))
 	u.decl(ok, fmt.Sprintf("(declare-fun %s (JV) Bool)", ok))
+	if it, isIface := t.Underlying().(*types.Interface); isIface && it.NumMethods() == 0 && !u.declSet["dec_iface_str"] {
+		// decoding into interface{}: a JSON string becomes a Go string (and nothing else does)
+		strT := types.Typ[types.String]
+		sdec, _ := tr.decFn(strT)
+		senc := tr.encFn(strT)
+		u.ensureBox("String")
+		sid := u.typeID(strT)
+		u.decl("specfn:jIsStr", "(declare-fun jIsStr (JV) Bool)")
+		u.decl("dec_iface_str", fmt.Sprintf("(assert (forall ((v JV)) (! (and (= (= (if_t (%s v)) %d) (jIsStr v)) (=> (jIsStr v) (= (unbox_String (if_v (%s v))) (%s v)))) :pattern ((%s v)))))", dec, sid, dec, sdec, dec))
+		u.decl("enc_str_isstr", fmt.Sprintf("(assert (forall ((s String)) (! (and (jIsStr (%s s)) (= (%s (%s s)) s) (not (= (%s s) jNull))) :pattern ((%s s)))))", senc, sdec, senc, senc, senc))
+		// encoding an interface{} holding a string is encoding the string
+		ienc := "enc_" + typeKey(t)
+		u.decl(ienc, fmt.Sprintf("(declare-fun %s (%s) JV)", ienc, u.sortOf(t)))
+		u.decl("enc_iface_str", fmt.Sprintf("(assert (forall ((x Iface)) (! (=> (= (if_t x) %d) (= (%s x) (%s (unbox_String (if_v x))))) :pattern ((%s x)))))", sid, ienc, senc, ienc))
+	}
 	return
 }
 
@@ -471,4 +489,48 @@ func (tr *Translator) metaRequired(def string) map[string]bool {
 		}
 	}
 	return out
+}
+
+// jsonLiteralFacts: a byte slice made from a constant string that is a JSON text: its value is known.
+func (tr *Translator) jsonLiteralFacts(b *Val, lit string) {
+	u := tr.u
+	var v interface{}
+	if err := json.Unmarshal([]byte(lit), &v); err != nil {
+		return
+	}
+	tr.jsonDecls()
+	J := "(jv " + b.E() + ")"
+	switch x := v.(type) {
+	case nil:
+		tr.assume(eq(J, "jNull"))
+	case map[string]interface{}:
+		var cnt []string
+		valExpr := "jNull"
+		for k, mv := range x {
+			isK := eq("k", smtString(k))
+			cnt = append(cnt, ite(isK, "1", "0"))
+			switch y := mv.(type) {
+			case string:
+				valExpr = ite(isK, "("+tr.encFn(types.Typ[types.String])+" "+smtString(y)+")", valExpr)
+			case bool:
+				valExpr = ite(isK, "("+tr.encFn(types.Typ[types.Bool])+" "+fmt.Sprint(y)+")", valExpr)
+			case nil:
+			default:
+				f := u.freshConst("jlit", "JV")
+				valExpr = ite(isK, f, valExpr)
+			}
+		}
+		sum := "0"
+		if len(cnt) > 0 {
+			sum = "(+ 0 " + strings.Join(cnt, " ") + ")"
+		}
+		tr.assume(and("(isObj "+J+")",
+			fmt.Sprintf("(forall ((k String)) (! (= (oCnt %s k) %s) :pattern ((oCnt %s k))))", J, sum, J),
+			fmt.Sprintf("(forall ((k String)) (! (=> (> (oCnt %s k) 0) (= (oVal %s k) %s)) :pattern ((oVal %s k))))", J, J, valExpr, J)))
+	case bool:
+		tr.assume(eq(J, "("+tr.encFn(types.Typ[types.Bool])+" "+fmt.Sprint(x)+")"))
+		tr.assume(not("(isObj " + J + ")"))
+	default:
+		tr.assume(not("(isObj " + J + ")"))
+	}
 }
